@@ -1,6 +1,7 @@
 (* C17 property theorems.  Statements + exact + Print Assumptions only. *)
 From ZV.Common Require Import Base.
 From ZV.C17 Require Import Spec Model ProofsSpec ProofsPage ProofsLinks ProofsLru ProofsRefine ProofsShard ProofsStamp ProofsStale ProofsTop.
+From ZV.C17 Require Import ModelInval ProofsInval ProofsFresh ModelBlob ProofsBlob ModelRoute ProofsRoute ProofsCap.
 Open Scope N_scope.
 
 (* ---- S: the recency-list LRU map never exceeds its capacity, for every history ---- *)
@@ -191,3 +192,376 @@ Check cached_get_is_inner_get : forall c vfid meta data,
   coherent c -> files c vfid = None ->
   snd (cached_get c vfid meta data) = data /\ coherent (fst (cached_get c vfid meta data)).
 Print Assumptions cached_get_is_inner_get.
+
+(* ====================================================================================================== *)
+(* extension: invalidation of the page cache, external rewrites, close_file, SingleLruPageCache          *)
+(* ====================================================================================================== *)
+
+(* ---- LruPageCache::invalidate_range(f, off, len) with the page arithmetic as written (first page off / PAGE,
+        last page (off + len).saturating_sub(1) / PAGE): every page it visits is gone from the page table and is
+        marked invalidated; every other page (other file, or not visited) keeps its entry and its mark; for a
+        non-empty range the visited pages are exactly the pages holding a byte of [off, off+len); for an empty
+        range at most the page of `off` is dropped ---- *)
+Theorem invalidate_range_covers : forall c fid off len,
+  0 < psize c ->
+  let c' := pc_invalidate_range c fid off len in
+  (forall p, visited (psize c) off len p ->
+     plookup (fid, p) (inner c') = None /\ pmem (fid, p) (inval c') = true) /\
+  (forall k, ~ (fst k = fid /\ visited (psize c) off len (snd k)) ->
+     plookup k (inner c') = plookup k (inner c) /\ pmem k (inval c') = pmem k (inval c)) /\
+  (0 < len -> forall p, visited (psize c) off len p <-> intersects (psize c) off len p) /\
+  (len = 0 -> forall p, visited (psize c) off len p -> p = off / psize c) /\
+  psize c' = psize c /\ files c' = files c.
+Proof. exact invalidate_range_covers_proof. Qed.
+Check invalidate_range_covers : forall c fid off len,
+  0 < psize c ->
+  let c' := pc_invalidate_range c fid off len in
+  (forall p, visited (psize c) off len p ->
+     plookup (fid, p) (inner c') = None /\ pmem (fid, p) (inval c') = true) /\
+  (forall k, ~ (fst k = fid /\ visited (psize c) off len (snd k)) ->
+     plookup k (inner c') = plookup k (inner c) /\ pmem k (inval c') = pmem k (inval c)) /\
+  (0 < len -> forall p, visited (psize c) off len p <-> intersects (psize c) off len p) /\
+  (len = 0 -> forall p, visited (psize c) off len p -> p = off / psize c) /\
+  psize c' = psize c /\ files c' = files c.
+Print Assumptions invalidate_range_covers.
+(* page size 4, a 12-byte file with all three pages resident: invalidate_range(3, 2) straddles the first boundary *)
+Example invalidate_range_covers_nontrivial :
+  let fs := fun g => if g =? 1 then Some [1; 2; 3; 4; 5; 6; 7; 8; 9; 10; 11; 12] else None in
+  let c := fst (pc_read (pc_new 4 64 fs) 1 0 12) in
+  let c' := pc_invalidate_range c 1 3 2 in
+  map fst (inner c) = [(1, 2); (1, 1); (1, 0)] /\ map fst (inner c') = [(1, 2)] /\
+  intersects 4 3 2 0 /\ intersects 4 3 2 1 /\ ~ intersects 4 3 2 2.
+Proof. vm_compute. repeat split; try reflexivity; try discriminate. intros [_ H]. discriminate. Qed.
+
+(* ---- InvalidationTracker::invalidated_pages is never cleared by a reload: once a page is invalidated (explicitly, or
+        by being evicted) every later get_page drops it and loads it from the file again, whatever the table held ---- *)
+Theorem invalidated_page_is_always_reloaded : forall c k,
+  pmem k (inval c) = true ->
+  snd (get_page c k) = match files c (fst k) with Some f => page_of (psize c) f (snd k) | None => [] end /\
+  pmem k (inval (fst (get_page c k))) = true.
+Proof. exact invalidated_reload_proof. Qed.
+Check invalidated_page_is_always_reloaded : forall c k,
+  pmem k (inval c) = true ->
+  snd (get_page c k) = match files c (fst k) with Some f => page_of (psize c) f (snd k) | None => [] end /\
+  pmem k (inval (fst (get_page c k))) = true.
+Print Assumptions invalidated_page_is_always_reloaded.
+Example invalidated_page_reloaded_nontrivial :
+  let fs := fun g => if g =? 1 then Some [1; 2; 3; 4; 5; 6; 7; 8] else None in
+  let c := pc_invalidate_range (fst (pc_read (pc_new 4 64 fs) 1 0 8)) 1 5 1 in
+  pmem (1, 1) (inval c) = true /\ snd (get_page c (1, 1)) = [5; 6; 7; 8].
+Proof. vm_compute. split; reflexivity. Qed.
+
+(* ---- LruPageCache::close_file(f): no page of f stays cached or marked, the pages and marks of every other file
+        are untouched, f has no file entry afterwards; Err exactly when f had none before ---- *)
+Theorem invalidate_file_covers : forall c fid,
+  let c' := fst (pc_close_file c fid) in
+  (forall p, plookup (fid, p) (inner c') = None /\ pmem (fid, p) (inval c') = false) /\
+  (forall k, fst k <> fid ->
+     plookup k (inner c') = plookup k (inner c) /\ pmem k (inval c') = pmem k (inval c)) /\
+  files c' fid = None /\ (forall g, g <> fid -> files c' g = files c g) /\
+  psize c' = psize c /\
+  snd (pc_close_file c fid) = match files c fid with Some _ => true | None => false end.
+Proof. exact invalidate_file_covers_proof. Qed.
+Check invalidate_file_covers : forall c fid,
+  let c' := fst (pc_close_file c fid) in
+  (forall p, plookup (fid, p) (inner c') = None /\ pmem (fid, p) (inval c') = false) /\
+  (forall k, fst k <> fid ->
+     plookup k (inner c') = plookup k (inner c) /\ pmem k (inval c') = pmem k (inval c)) /\
+  files c' fid = None /\ (forall g, g <> fid -> files c' g = files c g) /\
+  psize c' = psize c /\
+  snd (pc_close_file c fid) = match files c fid with Some _ => true | None => false end.
+Print Assumptions invalidate_file_covers.
+Example invalidate_file_covers_nontrivial :
+  let fs := fun g => if g =? 1 then Some [1; 2; 3; 4; 5; 6; 7; 8] else if g =? 2 then Some [9; 9; 9; 9; 9] else None in
+  let c := fst (pc_read (fst (pc_read (pc_new 4 64 fs) 1 0 8)) 2 0 5) in
+  map fst (inner c) = [(2, 1); (2, 0); (1, 1); (1, 0)] /\
+  map fst (inner (fst (pc_close_file c 1))) = [(2, 1); (2, 0)] /\ snd (pc_close_file c 1) = true /\
+  snd (pc_close_file (fst (pc_close_file c 1)) 1) = false.
+Proof. vm_compute. repeat split; reflexivity. Qed.
+
+(* ---- read / read_with_prefetch / prefetch / invalidate_page / invalidate_range / close_file histories in which
+        the file is also rewritten in place by somebody else (XWrite: no cache call at all).  `stale_step` keeps
+        the ghost list of pages that were rewritten and not invalidated since; every read that visits no such
+        page returns the file's current bytes (an unknown or closed file id: no bytes) ---- *)
+Theorem read_after_write_is_fresh : forall ps capbytes fs ops,
+  0 < ps -> xops_ok fs ops -> x_fresh (pc_new ps capbytes fs) [] ops.
+Proof. exact read_after_write_proof. Qed.
+Check read_after_write_is_fresh : forall ps capbytes fs ops,
+  0 < ps -> xops_ok fs ops -> x_fresh (pc_new ps capbytes fs) [] ops.
+Print Assumptions read_after_write_is_fresh.
+(* the same from any state whose non-stale pages are right *)
+Theorem read_after_write_is_fresh_from : forall ops c D,
+  0 < psize c -> stale_ok c D -> xops_ok (files c) ops -> x_fresh c D ops.
+Proof. exact x_fresh_proof. Qed.
+Check read_after_write_is_fresh_from : forall ops c D,
+  0 < psize c -> stale_ok c D -> xops_ok (files c) ops -> x_fresh c D ops.
+Print Assumptions read_after_write_is_fresh_from.
+(* the hypothesis "visits no stale page" matters: between the rewrite and the invalidation the old bytes come back *)
+Example read_after_write_nontrivial :
+  let fs := fun g => if g =? 1 then Some [1; 2; 3; 4; 5; 6; 7; 8; 9; 10; 11; 12] else None in
+  let ops := [XRead 1 0 12; XWrite 1 3 [40; 50]; XRead 1 0 12; XInvRange 1 3 2; XRead 1 0 12; XRead 1 8 9] in
+  xops_ok fs ops /\
+  snd (x_run (pc_new 4 64 fs) ops) =
+    [XBytes [1; 2; 3; 4; 5; 6; 7; 8; 9; 10; 11; 12]; XUnit; XBytes [1; 2; 3; 4; 5; 6; 7; 8; 9; 10; 11; 12];
+     XUnit; XBytes [1; 2; 3; 40; 50; 6; 7; 8; 9; 10; 11; 12]; XBytes [9; 10; 11; 12]].
+Proof. split; [cbn; repeat split; intros f E; inversion E; cbn; lia|vm_compute; reflexivity]. Qed.
+
+(* ---- if every rewrite is directly followed by an invalidate_range whose range covers the rewritten bytes
+        (equal or larger), every read of the history returns the file's bytes at that moment ---- *)
+Theorem covering_invalidation_history_correct : forall ps capbytes fs ops,
+  0 < ps -> xops_ok fs ops -> disciplined ops ->
+  snd (x_run (pc_new ps capbytes fs) ops) = x_expected fs ops.
+Proof. exact covering_history_proof. Qed.
+Check covering_invalidation_history_correct : forall ps capbytes fs ops,
+  0 < ps -> xops_ok fs ops -> disciplined ops ->
+  snd (x_run (pc_new ps capbytes fs) ops) = x_expected fs ops.
+Print Assumptions covering_invalidation_history_correct.
+Example covering_invalidation_nontrivial :
+  let fs := fun g => if g =? 1 then Some [1; 2; 3; 4; 5; 6; 7; 8; 9; 10; 11; 12] else None in
+  let ops := [XRead 1 0 12; XWrite 1 3 [40; 50]; XInvRange 1 2 5; XReadAhead 1 0 6 4; XClose 1; XRead 1 0 6] in
+  xops_ok fs ops /\ disciplined ops /\
+  x_expected fs ops = [XBytes [1; 2; 3; 4; 5; 6; 7; 8; 9; 10; 11; 12]; XUnit; XUnit; XBytes [1; 2; 3; 40; 50; 6];
+                       XOk true; XBytes []].
+Proof.
+  split; [cbn; repeat split; intros f E; inversion E; cbn; lia|].
+  split; [cbn; repeat split; lia|vm_compute; reflexivity].
+Qed.
+
+(* ---- SingleLruPageCache: its observations and its state are those of the wrapped LruPageCache on the same calls ---- *)
+Theorem single_cache_is_wrapped_cache : forall ops c,
+  somes (map sres_x (snd (single_run c ops))) = snd (x_run c (somes (map sop_x ops))) /\
+  fst (single_run c ops) = fst (x_run c (somes (map sop_x ops))).
+Proof. exact single_is_wrapped_proof. Qed.
+Check single_cache_is_wrapped_cache : forall ops c,
+  somes (map sres_x (snd (single_run c ops))) = snd (x_run c (somes (map sop_x ops))) /\
+  fst (single_run c ops) = fst (x_run c (somes (map sop_x ops))).
+Print Assumptions single_cache_is_wrapped_cache.
+
+(* ---- FileManager::read_page as written (PAGE_SIZE buffer, zero-filled behind the bytes read) followed by the
+        truncation to bytes_read in get_page is "the bytes of the page that exist in the file"; a failed read
+        (virtual file id) leaves an empty page, never PAGE_SIZE zeros ---- *)
+Theorem page_load_is_file_page : forall ps f p,
+  load_page ps (Some f) p = page_of ps f p /\ (0 < ps -> load_page ps None p = []).
+Proof. exact load_page_is_page_of. Qed.
+Check page_load_is_file_page : forall ps f p,
+  load_page ps (Some f) p = page_of ps f p /\ (0 < ps -> load_page ps None p = []).
+Print Assumptions page_load_is_file_page.
+
+(* ====================================================================================================== *)
+(* extension: CachedBlobStore in front of any blob store                                                  *)
+(* ====================================================================================================== *)
+
+(* ---- a read of a virtual file id (register_file(-1): no file entry) supplies no byte, for every offset and
+        length (any number of pages), from every cache state in which the id's pages are empty; and every
+        operation on the cache keeps them empty.  (A page that loaded as PAGE_SIZE zeros would be served as data.) ---- *)
+Theorem virtual_read_supplies_nothing : forall c v off len,
+  virt_ok c v -> snd (pc_read c v off len) = [] /\ virt_ok (fst (pc_read c v off len)) v.
+Proof. exact (fun c v off len H => conj (pc_read_virt c v off len H) (pc_read_keeps_virt c v v off len H)). Qed.
+Check virtual_read_supplies_nothing : forall c v off len,
+  virt_ok c v -> snd (pc_read c v off len) = [] /\ virt_ok (fst (pc_read c v off len)) v.
+Print Assumptions virtual_read_supplies_nothing.
+Theorem virtual_pages_stay_empty : forall c v o, virt_ok c v -> virt_ok (fst (x_step c o)) v.
+Proof. exact x_step_keeps_virt. Qed.
+Check virtual_pages_stay_empty : forall c v o, virt_ok c v -> virt_ok (fst (x_step c o)) v.
+Print Assumptions virtual_pages_stay_empty.
+
+(* ---- for every wrapped store (any state type, any put/get/remove/size/contains/len), every history of
+        put / get / remove / size / contains / len / flush / prefetch_range / disable / enable / set_write_strategy,
+        interleaved with arbitrary direct use of the (shared) page cache: the CachedBlobStore returns what the
+        wrapped store returns on the same calls, and leaves the wrapped store in the same state.
+        Blobs of any size (several pages), any write strategy, cache enabled or not. ---- *)
+Theorem cached_store_is_inner_store :
+  forall (St : Type) (i_put : St -> list N -> St * option N) (i_get : St -> N -> option (list N))
+         (i_remove : St -> N -> St * bool) (i_size : St -> N -> option N) (i_contains : St -> N -> bool)
+         (i_len : St -> N) (ops : list bop) (s : cbs St),
+  virt_ok (b_cache St s) (b_fid St s) ->
+  store_view ops (snd (cb_run St i_put i_get i_remove i_size i_contains i_len s ops)) =
+    snd (i_run St i_put i_get i_remove i_size i_contains i_len (b_inner St s) ops) /\
+  b_inner St (fst (cb_run St i_put i_get i_remove i_size i_contains i_len s ops)) =
+    fst (i_run St i_put i_get i_remove i_size i_contains i_len (b_inner St s) ops).
+Proof. exact cached_store_proof. Qed.
+Check cached_store_is_inner_store :
+  forall (St : Type) (i_put : St -> list N -> St * option N) (i_get : St -> N -> option (list N))
+         (i_remove : St -> N -> St * bool) (i_size : St -> N -> option N) (i_contains : St -> N -> bool)
+         (i_len : St -> N) (ops : list bop) (s : cbs St),
+  virt_ok (b_cache St s) (b_fid St s) ->
+  store_view ops (snd (cb_run St i_put i_get i_remove i_size i_contains i_len s ops)) =
+    snd (i_run St i_put i_get i_remove i_size i_contains i_len (b_inner St s) ops) /\
+  b_inner St (fst (cb_run St i_put i_get i_remove i_size i_contains i_len s ops)) =
+    fst (i_run St i_put i_get i_remove i_size i_contains i_len (b_inner St s) ops).
+Print Assumptions cached_store_is_inner_store.
+(* page size 4, MemoryBlobStore, a 10-byte blob (3 pages) and a real file sharing the cache *)
+Example cached_store_nontrivial :
+  let fs := fun g => if g =? 1 then Some [1; 2; 3; 4; 5; 6; 7; 8; 9; 10; 11; 12] else None in
+  let s := mkB mem mem_new (pc_new 4 8 fs) 2 true 0 [] 0 in
+  let ops := [BPut [9; 8; 7; 6; 5; 4; 3; 2; 1; 0]; BPut [5]; BCache (XRead 1 2 5); BPrefetch 0 12; BGet 1;
+              BRemove 1; BGet 1; BGet 2; BLen] in
+  virt_ok (b_cache mem s) (b_fid mem s) /\
+  snd (cb_run mem mem_put mem_get mem_remove mem_size mem_contains mem_len s ops) =
+    [RId (Some 1); RId (Some 2); RCache (XBytes [3; 4; 5; 6; 7]); RNone; RBytes (Some [9; 8; 7; 6; 5; 4; 3; 2; 1; 0]);
+     ROk true; RBytes None; RBytes (Some [5]); RCount 1].
+Proof. split; [apply virt_ok_new; reflexivity|vm_compute; reflexivity]. Qed.
+
+(* ---- the store's own traffic on a shared cache (reads, prefetches and invalidations of its virtual id) does not
+        disturb anybody else: every clean direct read of a real file through the shared cache returns the file's
+        current bytes, whatever the store does in between ---- *)
+Theorem shared_cache_reads_stay_fresh :
+  forall (St : Type) (i_put : St -> list N -> St * option N) (i_get : St -> N -> option (list N))
+         (i_remove : St -> N -> St * bool) (i_size : St -> N -> option N) (i_contains : St -> N -> bool)
+         (i_len : St -> N) (ops : list bop) (s : cbs St) (D : list pkey),
+  0 < psize (b_cache St s) -> stale_ok (b_cache St s) D -> bops_ok (files (b_cache St s)) ops ->
+  cb_fresh St i_put i_get i_remove i_size i_contains i_len s D ops.
+Proof. exact cb_fresh_proof. Qed.
+Check shared_cache_reads_stay_fresh :
+  forall (St : Type) (i_put : St -> list N -> St * option N) (i_get : St -> N -> option (list N))
+         (i_remove : St -> N -> St * bool) (i_size : St -> N -> option N) (i_contains : St -> N -> bool)
+         (i_len : St -> N) (ops : list bop) (s : cbs St) (D : list pkey),
+  0 < psize (b_cache St s) -> stale_ok (b_cache St s) D -> bops_ok (files (b_cache St s)) ops ->
+  cb_fresh St i_put i_get i_remove i_size i_contains i_len s D ops.
+Print Assumptions shared_cache_reads_stay_fresh.
+Example shared_cache_reads_nontrivial :
+  let fs := fun g => if g =? 1 then Some [1; 2; 3; 4; 5; 6; 7; 8; 9; 10; 11; 12] else None in
+  let s := mkB mem mem_new (pc_new 4 8 fs) 2 true 0 [] 0 in
+  let ops := [BCache (XRead 1 0 12); BPut [9; 8; 7; 6; 5; 4; 3; 2; 1; 0]; BPrefetch 0 40; BCache (XWrite 1 3 [40; 50]);
+              BGet 1; BCache (XInvRange 1 3 2); BRemove 1; BCache (XRead 1 2 5)] in
+  0 < psize (b_cache mem s) /\ stale_ok (b_cache mem s) [] /\ bops_ok (files (b_cache mem s)) ops /\
+  snd (cb_run mem mem_put mem_get mem_remove mem_size mem_contains mem_len s ops) =
+    [RCache (XBytes [1; 2; 3; 4; 5; 6; 7; 8; 9; 10; 11; 12]); RId (Some 1); RNone; RCache XUnit;
+     RBytes (Some [9; 8; 7; 6; 5; 4; 3; 2; 1; 0]); RCache XUnit; ROk true; RCache (XBytes [3; 40; 50; 6; 7])].
+Proof.
+  split; [reflexivity|]. split; [intros k pg H; discriminate H|].
+  split; [cbn; repeat split; intros f E; inversion E; cbn; lia|vm_compute; reflexivity].
+Qed.
+
+(* ====================================================================================================== *)
+(* extension: ConcurrentLruMap with RoundRobin / ThreadAffinity routing                                   *)
+(* ====================================================================================================== *)
+
+(* ---- whatever shard select_shard picks for each operation: seen from shard j, the history is the history of one
+        LruMap on the operations that were sent to j (and the clears) ---- *)
+Theorem routed_per_shard : forall n j rops sh,
+  fst (g_run sh n rops) j = fst (m_run (sh j) (gsub j rops)) /\
+  gpick j rops (snd (g_run sh n rops)) = snd (m_run (sh j) (gsub j rops)).
+Proof. exact g_per_shard_proof. Qed.
+Check routed_per_shard : forall n j rops sh,
+  fst (g_run sh n rops) j = fst (m_run (sh j) (gsub j rops)) /\
+  gpick j rops (snd (g_run sh n rops)) = snd (m_run (sh j) (gsub j rops)).
+Print Assumptions routed_per_shard.
+
+(* ---- RoundRobin (shard = global counter & mask, one tick per get/put/remove/contains_key): per shard ---- *)
+Theorem rr_per_shard : forall mask sh ctr n ops j,
+  fst (fst (rr_run mask sh ctr n ops)) j = fst (m_run (sh j) (gsub j (rr_route mask ctr ops))) /\
+  gpick j (rr_route mask ctr ops) (snd (rr_run mask sh ctr n ops)) = snd (m_run (sh j) (gsub j (rr_route mask ctr ops))).
+Proof. exact rr_per_shard_proof. Qed.
+Check rr_per_shard : forall mask sh ctr n ops j,
+  fst (fst (rr_run mask sh ctr n ops)) j = fst (m_run (sh j) (gsub j (rr_route mask ctr ops))) /\
+  gpick j (rr_route mask ctr ops) (snd (rr_run mask sh ctr n ops)) = snd (m_run (sh j) (gsub j (rr_route mask ctr ops))).
+Print Assumptions rr_per_shard.
+Theorem rr_shard_is_lru : forall mask cp ctr n ops j,
+  1 <= cp -> cp < INVALID ->
+  gpick j (rr_route mask ctr ops) (snd (rr_run mask (fun _ => lru_new cp) ctr n ops)) =
+    snd (s_run cp [] (gsub j (rr_route mask ctr ops))).
+Proof. exact rr_shard_is_lru_proof. Qed.
+Check rr_shard_is_lru : forall mask cp ctr n ops j,
+  1 <= cp -> cp < INVALID ->
+  gpick j (rr_route mask ctr ops) (snd (rr_run mask (fun _ => lru_new cp) ctr n ops)) =
+    snd (s_run cp [] (gsub j (rr_route mask ctr ops))).
+Print Assumptions rr_shard_is_lru.
+Example rr_shard_is_lru_nontrivial :
+  let ops := [Put 1 10; Put 2 20; Put 3 30; Get 1; Put 4 40; Get 3] in
+  rr_route 1 0 ops = [(0, Put 1 10); (1, Put 2 20); (0, Put 3 30); (1, Get 1); (0, Put 4 40); (1, Get 3)] /\
+  gpick 0 (rr_route 1 0 ops) (snd (rr_run 1 (fun _ => lru_new 2) 0 2 ops)) =
+    [(RPut None, []); (RPut None, []); (RPut None, [(1, 10)])].
+Proof. split; vm_compute; reflexivity. Qed.
+(* with one shard the round-robin map is the LRU map of the property *)
+Theorem rr_one_shard_is_lru : forall cp ctr ops,
+  1 <= cp -> cp < INVALID ->
+  snd (rr_run 0 (fun _ => lru_new cp) ctr 1 ops) = snd (s_run cp [] ops).
+Proof. exact rr_one_shard_is_lru_proof. Qed.
+Check rr_one_shard_is_lru : forall cp ctr ops,
+  1 <= cp -> cp < INVALID ->
+  snd (rr_run 0 (fun _ => lru_new cp) ctr 1 ops) = snd (s_run cp [] ops).
+Print Assumptions rr_one_shard_is_lru.
+Example rr_one_shard_nontrivial :
+  snd (rr_run 0 (fun _ => lru_new 2) 5 1 [Put 1 10; Put 2 20; Contains 1; Put 3 30; Get 1; Len]) =
+  [(RPut None, []); (RPut None, []); (RContains true, []); (RPut None, [(1, 10)]); (RGet None, []); (RLen 2, [])].
+Proof. vm_compute. reflexivity. Qed.
+(* with more than one shard it is not (finding concurrent_round_robin_routing): the get looks in another shard than the put *)
+Theorem rr_get_after_put_refuted : exists mask cp n k v,
+  1 <= cp /\ snd (rr_run mask (fun _ => lru_new cp) 0 n [Put k v; Get k]) = [(RPut None, []); (RGet None, [])].
+Proof. exists 3, 2, 4%nat, 13, 102. split; [lia|vm_compute; reflexivity]. Qed.
+Check rr_get_after_put_refuted : exists mask cp n k v,
+  1 <= cp /\ snd (rr_run mask (fun _ => lru_new cp) 0 n [Put k v; Get k]) = [(RPut None, []); (RGet None, [])].
+Print Assumptions rr_get_after_put_refuted.
+
+(* ---- ThreadAffinity (shard = hash(thread id) & mask, for any hash th): per shard ---- *)
+Theorem ta_per_shard : forall th mask sh n tops j,
+  fst (ta_run th mask sh n tops) j = fst (m_run (sh j) (gsub j (ta_route th mask tops))) /\
+  gpick j (ta_route th mask tops) (snd (ta_run th mask sh n tops)) = snd (m_run (sh j) (gsub j (ta_route th mask tops))).
+Proof. exact ta_per_shard_proof. Qed.
+Check ta_per_shard : forall th mask sh n tops j,
+  fst (ta_run th mask sh n tops) j = fst (m_run (sh j) (gsub j (ta_route th mask tops))) /\
+  gpick j (ta_route th mask tops) (snd (ta_run th mask sh n tops)) = snd (m_run (sh j) (gsub j (ta_route th mask tops))).
+Print Assumptions ta_per_shard.
+Theorem ta_shard_is_lru : forall th mask cp n tops j,
+  1 <= cp -> cp < INVALID ->
+  gpick j (ta_route th mask tops) (snd (ta_run th mask (fun _ => lru_new cp) n tops)) =
+    snd (s_run cp [] (gsub j (ta_route th mask tops))).
+Proof. exact ta_shard_is_lru_proof. Qed.
+Check ta_shard_is_lru : forall th mask cp n tops j,
+  1 <= cp -> cp < INVALID ->
+  gpick j (ta_route th mask tops) (snd (ta_run th mask (fun _ => lru_new cp) n tops)) =
+    snd (s_run cp [] (gsub j (ta_route th mask tops))).
+Print Assumptions ta_shard_is_lru.
+(* what one thread does by itself is an LRU map of the per-shard capacity *)
+Theorem ta_one_thread_is_lru : forall th mask cp n t tops,
+  1 <= cp -> cp < INVALID -> Forall (fun r => fst r = t) tops ->
+  gpick (ta_shard th mask t) (ta_route th mask tops) (snd (ta_run th mask (fun _ => lru_new cp) n tops)) =
+    snd (s_run cp [] (filter not_len (map snd tops))).
+Proof. exact ta_one_thread_is_lru_proof. Qed.
+Check ta_one_thread_is_lru : forall th mask cp n t tops,
+  1 <= cp -> cp < INVALID -> Forall (fun r => fst r = t) tops ->
+  gpick (ta_shard th mask t) (ta_route th mask tops) (snd (ta_run th mask (fun _ => lru_new cp) n tops)) =
+    snd (s_run cp [] (filter not_len (map snd tops))).
+Print Assumptions ta_one_thread_is_lru.
+Example ta_one_thread_nontrivial :
+  let tops := [(5, Put 1 10); (5, Put 2 20); (5, Put 3 30); (5, Get 1)] in
+  Forall (fun r => fst r = 5) tops /\
+  snd (ta_run (fun t => t) 3 (fun _ => lru_new 2) 4 tops) =
+    [(RPut None, []); (RPut None, []); (RPut None, [(1, 10)]); (RGet None, [])].
+Proof. split; [repeat constructor|vm_compute; reflexivity]. Qed.
+(* a value put by one thread is invisible to a thread that hashes to another shard (finding concurrent_thread_affinity_routing) *)
+Theorem ta_cross_thread_get_refuted : exists (th : N -> N) mask cp n k v,
+  1 <= cp /\ snd (ta_run th mask (fun _ => lru_new cp) n [(0, Put k v); (1, Get k)]) = [(RPut None, []); (RGet None, [])].
+Proof. exists (fun t => t), 3, 4, 4%nat, 7, 70. split; [lia|vm_compute; reflexivity]. Qed.
+Check ta_cross_thread_get_refuted : exists (th : N -> N) mask cp n k v,
+  1 <= cp /\ snd (ta_run th mask (fun _ => lru_new cp) n [(0, Put k v); (1, Get k)]) = [(RPut None, []); (RGet None, [])].
+Print Assumptions ta_cross_thread_get_refuted.
+
+(* ---- key-hash routing is the same dispatch with the shard taken from the key ---- *)
+Theorem hash_routing_is_routed : forall ops c n,
+  shard (fst (c_run c n ops)) = fst (g_run (shard c) n (map (fun o => (match o with Get k | Put k _ | Remove k | Contains k => sel c k | _ => 0 end, o)) ops)) /\
+  snd (c_run c n ops) = snd (g_run (shard c) n (map (fun o => (match o with Get k | Put k _ | Remove k | Contains k => sel c k | _ => 0 end, o)) ops)).
+Proof. exact hash_run_routed. Qed.
+Check hash_routing_is_routed : forall ops c n,
+  shard (fst (c_run c n ops)) = fst (g_run (shard c) n (map (fun o => (match o with Get k | Put k _ | Remove k | Contains k => sel c k | _ => 0 end, o)) ops)) /\
+  snd (c_run c n ops) = snd (g_run (shard c) n (map (fun o => (match o with Get k | Put k _ | Remove k | Contains k => sel c k | _ => 0 end, o)) ops)).
+Print Assumptions hash_routing_is_routed.
+
+(* ====================================================================================================== *)
+(* extension: the page cache stays within its capacity                                                    *)
+(* ====================================================================================================== *)
+(* ---- after every history of reads / prefetches / invalidations / rewrites / close_file the page table holds at most
+        capacity / PAGE_SIZE pages -- and one page when that quotient is 0 (the eviction runs before the insertion,
+        so a cache configured below one page still keeps the page it has just loaded) ---- *)
+Theorem page_cache_size_le_cap : forall ps capbytes fs ops,
+  nlen (inner (fst (x_run (pc_new ps capbytes fs) ops))) <= N.max 1 (capbytes / ps).
+Proof. exact page_cache_size_proof. Qed.
+Check page_cache_size_le_cap : forall ps capbytes fs ops,
+  nlen (inner (fst (x_run (pc_new ps capbytes fs) ops))) <= N.max 1 (capbytes / ps).
+Print Assumptions page_cache_size_le_cap.
+Example page_cache_size_nontrivial :
+  let fs := fun g => if g =? 1 then Some [1; 2; 3; 4; 5; 6; 7; 8; 9; 10; 11; 12] else None in
+  nlen (inner (fst (x_run (pc_new 4 8 fs) [XRead 1 0 12; XInvRange 1 3 2; XRead 1 0 12]))) = 2 /\
+  nlen (inner (fst (x_run (pc_new 4 3 fs) [XRead 1 0 12]))) = 1.
+Proof. vm_compute. split; reflexivity. Qed.
